@@ -334,6 +334,19 @@ def mvnd_obligations(chk):
         return [c > 0 for c in cells(vb)], z3.And(*goals)
     obs.append(Obligation("MVND: with a batch of variances, locations and evaluation points, batch member b of log_prob is the density with var[b], loc[b] at x[b]", [e_b], g_batch,
                           signature="mvnd:batch", expand_logs=True, timeout_s=120))
+    # --- a precision matrix written with integer literals: location and evaluation point keep their real values
+    Ki = np.array([[1, -1], [-1, 1]], dtype=np.int32)
+    xi, mi = sym_array("x_int", (2,)), sym_array("mu_int", (2,))
+    e_i = chk.note_enc(Enc("MVND(loc, integer-typed precision [[1,-1],[-1,1]]).log_prob", lambda x_, m_: MVND(m_, jnp.asarray(Ki)).log_prob(x_), (jnp.zeros(2) + 0.2, jnp.array([0.3, -0.4])), (xi, mi)))
+
+    def g_int(V):
+        d_ = [xi[i] - mi[i] for i in range(2)]
+        quad = sum(int(Ki[i, j]) * d_[i] * d_[j] for i in range(2) for j in range(2))
+        form = -quad / 2 - (V.c(LOG2PI) - V.c(np.float32(np.log(2.0)))) / 2
+        d = cells(V.out)[0] - form
+        return [], z3.And(d <= z3.RealVal("1/10000"), d >= -z3.RealVal("1/10000"))
+    obs.append(Obligation("MVND(loc, prec) with an integer-typed precision matrix: log-density is the range-space Gaussian density at the real-valued location and evaluation point", [e_i], g_int,
+                          signature="mvnd:int-precision", timeout_s=120))
     # --- a supplied rank is used as given (penalty with an eigenvalue below the 1e-6 tolerance), log-pdet not supplied
     Ks = np.diag([1.0, 0.5, 1e-7]).astype(np.float32)
     var = z3.Real("var_small")
